@@ -14,7 +14,7 @@ import (
 var textFrags = []string{"x", "hello", " ", "&amp;", "&lt;", "&#x3c;b&#x3e;", "&#0;", "&#13;", "\r\n", "\r", "\x00", "&", "<", ">", "\"", "'", "&nbsp", "&ampx;", "É", "\xff", "😀",
 	"&#1234567;", "&NewLine;", "a&b", "< b", "<3", "</", "-->", "]]>", "\t", "&#x80;", "&#xD800;", "&notit;", "&not", "&lt", "&#", "&#x", "\xc3", "\xe2\x80", "&amp;lt;", "`", "=", "\n"}
 
-var urlVals = []string{"http://example.com/", "https://a.b/c?d=e#f", "mailto:a@b.c", "/rel/path", "//host/x", "#frag", "javascript:alert(1)", "JaVaScRiPt:alert(1)", " javascript:alert(1)",
+var urlVals = []string{"/search?q=&amp;amp;&amp;x=1", "/p?a=1&ampamp=2", "http://example.com/?a=&amp;lt;b", "http://example.com/", "https://a.b/c?d=e#f", "mailto:a@b.c", "/rel/path", "//host/x", "#frag", "javascript:alert(1)", "JaVaScRiPt:alert(1)", " javascript:alert(1)",
 	"java\tscript:alert(1)", "data:text/html,x", "data:image/png;base64,iVBORw0KGgo=", "ftp://x/y", "x-app://open", "http://a b/", "\x01javascript:x", "tel:+123", "http://[::1]/",
 	"http:\\\\evil.com", "a/b:c", "%6aavascript:x", "?q=<b>", "http://é.com/é?é#é", "", " ", "http://x/%zz", "http://example.org/ok/1", "https://example.org/no", "HTTP://EXAMPLE.ORG/ok",
 	"http://x/?a=1&b=2;c=3", "http://x/?<x>=1", "http://user:pw@h:80/p", "sftp://h/", "tels:1",
@@ -26,7 +26,8 @@ var otherVals = []string{"", "1", "42", "50%", "rtl", "en", "a b", "nofollow", "
 	"&#x6a;avascript:alert(1)", "`", "a=b", "center", "top", "circle", "-1.5", "nofollowx", "x<en>", "it's"}
 
 var specials = []string{"<!-- c -->", "<!--><b>-->", "<!--[if IE]><b><![endif]-->", "<!DOCTYPE html>", "<![CDATA[<b>x</b>]]>", "<?xml version=\"1.0\"?>", "<!x>", "</>", "<>", "< a>", "</ a>",
-	"<a", "<a href=\"", "<a href='x", "<!--", "<!-", "<![CDATA[", "<!doctype html SYSTEM \"x\"><b>", "<!--x--!>", "<!-- --!><i>", "</ >", "<?", "<!>", "<%x%>", "</#>", "<a/b/c>", "<b/>", "<!---->", "<!--->"}
+	"<a", "<a href=\"", "<a href='x", "<!--", "<!-", "<![CDATA[", "<!doctype html SYSTEM \"x\"><b>", "<!--x--!>", "<!-- --!><i>", "</ >", "<?", "<!>", "<%x%>", "</#>", "<a/b/c>", "<b/>", "<!---->", "<!--->",
+	"<!--&gt;<script>alert(1)</script>-->", "<!---&gt;<img src=x onerror=alert(1)>-->", "<!--&#62;<iframe src=//evil>-->", "<!--&gt;--><b>", "<!--a--&gt;<i>b-->", "<!--a--!&gt;<i>b-->"}
 
 var extraNames = []string{"h3", "my-zzz", "x-q", "sx", "tagged", "u", "em", "scrİpt", "K", "a:b", "svg:a", "b\x00", "1a", "a=b", "a\"b", "a'b", "a<b"}
 
@@ -253,22 +254,24 @@ func genSoup(t *rapid.T, m *Model, o *soupOpts) string {
 // G-tree: well-formed documents. Attribute values are always quoted.
 
 type node struct {
-	el      string
-	attrs   []string // already serialised k="v"
-	kids    []*node
-	text    string // for text nodes (el == "")
-	voidEnd bool   // void element followed by its own end tag
+	el         string
+	attrs      []string // already serialised k="v"
+	kids       []*node
+	text       string // for text nodes (el == "")
+	voidEnd    bool   // void element followed by its own end tag
+	selfClosed bool   // non-void element in self-closing syntax, no children
 }
 
 type treeGen struct {
-	t        *rapid.T
-	els      []string
-	attrs    []string
-	marker   int
-	noVoidS  map[string]bool // names never to generate
-	plain    bool            // canonical attribute syntax only
-	comments bool            // also generate comment leaves (each with its own marker)
-	voidEnds bool            // void elements are now and then followed by their own end tag
+	t         *rapid.T
+	els       []string
+	attrs     []string
+	marker    int
+	noVoidS   map[string]bool // names never to generate
+	plain     bool            // canonical attribute syntax only
+	comments  bool            // also generate comment leaves (each with its own marker)
+	voidEnds  bool            // void elements are now and then followed by their own end tag
+	selfClose bool            // childless non-void elements are now and then written <el/>
 }
 
 func (g *treeGen) textNode() *node {
@@ -286,7 +289,8 @@ func validTreeName(el string) bool {
 	}
 	for i := 0; i < len(el); i++ {
 		c := el[i]
-		if !(c >= 'a' && c <= 'z' || c >= '0' && c <= '9' && i > 0 || c == '-' && i > 0) {
+		// non-ASCII bytes, quotes and backslashes are ordinary tag-name characters for the tokenizer
+		if !(c >= 'a' && c <= 'z' || c >= '0' && c <= '9' && i > 0 || c == '-' && i > 0 || (c >= 0x80 || c == '"' || c == '\\') && i > 0) {
 			return false
 		}
 	}
@@ -326,12 +330,20 @@ func (g *treeGen) gen(depth int) *node {
 		n.kids = []*node{tn}
 		return n
 	}
+	if g.selfClose && !selfCloseUnsafe[el] && rapid.IntRange(0, 7).Draw(g.t, "selfClose") == 0 {
+		// <object/>: one self-closing token for the tokenizer, neither opens nor closes anything
+		n.selfClosed = true
+		return n
+	}
 	nk := rapid.IntRange(0, 3).Draw(g.t, "nk")
 	for i := 0; i < nk; i++ {
 		n.kids = append(n.kids, g.gen(depth-1))
 	}
 	return n
 }
+
+// after these the tokenizer switches to raw text / RCDATA whatever the syntax
+var selfCloseUnsafe = map[string]bool{"script": true, "style": true, "title": true, "textarea": true, "iframe": true, "noembed": true, "noframes": true, "noscript": true, "xmp": true, "plaintext": true}
 
 func (n *node) write(sb *strings.Builder) {
 	if n.el == "" {
@@ -341,6 +353,10 @@ func (n *node) write(sb *strings.Builder) {
 	sb.WriteString("<" + n.el)
 	for _, a := range n.attrs {
 		sb.WriteString(" " + a)
+	}
+	if n.selfClosed {
+		sb.WriteString("/>")
+		return
 	}
 	sb.WriteString(">")
 	if voidEls[n.el] {
@@ -356,11 +372,12 @@ func (n *node) write(sb *strings.Builder) {
 }
 
 type treeOpts struct {
-	voidEnds bool
-	comments bool
-	extraEls []string
-	exclude  map[string]bool
-	depth    int
+	selfClose bool
+	voidEnds  bool
+	comments  bool
+	extraEls  []string
+	exclude   map[string]bool
+	depth     int
 }
 
 func genTree(t *rapid.T, m *Model, o *treeOpts) string {
@@ -369,7 +386,7 @@ func genTree(t *rapid.T, m *Model, o *treeOpts) string {
 	els, attrs := m.vocabulary()
 	g := &treeGen{t: t}
 	g.els = append(append(append([]string{}, elemPool...), els...), els...)
-	g.els = append(g.els, "my-zzz", "x-q", "h3", "object", "object", "nostyle", "frameset", "sx", "tagged")
+	g.els = append(g.els, "my-zzz", "x-q", "h3", "object", "object", "nostyle", "frameset", "sx", "tagged", "x-caf\u00e9", "my-\u00fc", "x-\"q", "my-a\\b")
 	for _, e := range sortedKeys(m.skip) {
 		g.els = append(g.els, e)
 	}
@@ -380,6 +397,7 @@ func genTree(t *rapid.T, m *Model, o *treeOpts) string {
 		g.noVoidS = o.exclude
 		g.comments = o.comments
 		g.voidEnds = o.voidEnds
+		g.selfClose = o.selfClose
 		if o.depth > 0 {
 			depth = o.depth
 		}
@@ -419,7 +437,7 @@ var cssValuePool = []string{"teal", "plum", "red", "RED", "blue", "re d", "left"
 	"url(http://x.y/z.png)", "url(javascript:alert(1))", "expression(alert(1))", "0.5", "1.0", "", "a b c", "#fff", "rgb(1,2,3)", "x;y", "\"a;b\"", "url(a;b)", "f(a;b)", "a:b", "{a}", "[a]", "a}b",
 	"'abc", "a\\", "a\\\nb", "/*c*/red", "red/**/", "r/**/ed", "\u017folid", "\u017fOLID", "bloc\u212a", "da\u017fhed", "solid", "BLOCK", "dashed", "center\u0130", "underl\u0131ne", "red !important", "red!IMPORTANT", "red !important !important", "red !important!important", "red ! important", "red !IMPORTANT !important ", "red\\ ", "red \\ ", "1px\\ ", "<b>", "a&b", "@import", "!x", "1px", "none", "2em", "50%", "1px solid red", "1"}
 var cssEscPool = []string{`\72 `, `\72`, `\0072 `, `\000072`, `\000072 `, `\52 `, `\20 `, `\a `, `\9 `, `\d `, `\a0 `, `\5c `, `\5c`, `\10000 `, `\10ffff `, `\110000 `, `\d800 `, `\0 `, `\r`, `\z`, `\;`, `\"`, `\\`,
-	`\ `, `\3b `, `\3a `, `\28 `, `\2f\2a `, `\2a\2f `, `\2f* `, ` \2a/`, `\27 `, `\22 `, `\27`, `\22`, `\29 `, `\2c `, `\5C `, `\5C`, `\0005c`, `\62`, `\6C`, `\000020`, `\00000a`}
+	`\ `, "\\72  ", "\\72 \t", "\\72\t", "\\72\n", "\\72\n ", "\\6c   ", "\\72\f ", `\3b `, `\3a `, `\28 `, `\2f\2a `, `\2a\2f `, `\2f* `, ` \2a/`, `\27 `, `\22 `, `\27`, `\22`, `\29 `, `\2c `, `\5C `, `\5C`, `\0005c`, `\62`, `\6C`, `\000020`, `\00000a`}
 var cssPropSpell = []string{"color", "COLOR", "Color", "-webkit-color", "-moz-color", "mso-color", "font-family", "text-decoration", "margin", "background-image", "opacity", "nosuchprop", "text-align",
 	"width", "x-any", "x-kw", "bogus", "col\\6fr", "-webkit--moz-color", "prince-width", "", "a b", "background", "font-size", "border", "animation", "filter", "list-style", "transition", "height", "float",
 	"-o-text-align", "-ms-width"}
